@@ -50,7 +50,7 @@ def plan(tier):
 def floors(tier):
     """About a quarter to a third of the smallest count seen over seeds 0..5 on the unchanged tree (thorough: x6 for 8x the cases)."""
     k = 6 if tier == "thorough" else 1
-    f = {"evaluations": 600, "nodes_compared": 3000, "numbers_compared": 400, "obs_sites_crosschecks": 1500,
+    f = {"evaluations": 500, "nodes_compared": 3000, "numbers_compared": 400, "obs_sites_crosschecks": 1500,
          "obs_matrix_crosschecks": 1500, "operands": 1200, "factor_nonunit_operands": 900, "N=1": 30, "N=2": 80, "N=5": 60, "N=6": 60,
          "measure:overlap": 100, "measure:mpo": 70, "measure:mpo-sum": 30, "measure:mpo-pbc": 20, "measure:env-sum": 20,
          "measure:on_bra": 8, "measure:charged-op:nonzero": 20, "measure:charged-op-nonvanishing": 20,
@@ -59,9 +59,9 @@ def floors(tier):
          "leaf:tiny-site-amplitude": 50, "zipper": 60, "zipper:pbc": 15, "compression:1site": 12,
          "compression:2site": 12, "leaf:harness": 700, "leaf:random": 200, "leaf:product": 200, "leaf:from_tensor": 120,
          "from_tensor:balance": 35, "from_tensor:first": 35, "from_tensor:last": 35, "nonzero_charge_leaves": 400,
-         "complex_leaves": 600, "addn_mixed_sign_or_phase": 25, "matmul_mode_meta": 20, "central:reverse": 4,
+         "complex_leaves": 600, "addn_mixed_sign_or_phase": 18, "matmul_mode_meta": 20, "central:reverse": 4,
          "central_block_comparisons": 70, "central:add-multiply-rejected": 35,
-         "addn:permuted-order": 20, "addn:amplitudes-as-tuple": 10, "addn:amplitudes-as-list": 12, "addn:zero-amplitude": 4,
+         "addn:permuted-order": 20, "addn:amplitudes-as-tuple": 10, "addn:amplitudes-as-list": 12, "addn:zero-amplitude": 3,
          "addself:+": 15, "addself:add3": 6, "addself:add-amps": 5, "addself:sub": 3, "leaf:identity": 30, "twin_checks": 60,
          "measure:mpo-sum:ops-as-tuple": 15, "measure:mpo-sum:ops-as-list": 15, "defaults:zipper": 7, "defaults:compression_": 2,
          "defaults:random_mps/random_mpo": 25, "defaults:mps_from_tensor": 6, "defaults:mpo_from_tensor": 3,
